@@ -38,6 +38,7 @@ Json Scenario::to_json() const {
 	j.set("missing_tools", mt);
 	j.set("readlink_fail", readlink_fail);
 	j.set("stdin_closed", stdin_closed).set("sigchld_ignored", sigchld_ignored);
+	j.set("sigterm_inherited", sigterm_inherited).set("stdin_stays_open", stdin_stays_open);
 	j.set("stray_exit_step", stray_exit_step);
 	j.set("stray_status", stray_status);
 	j.set("pipe_cap", pipe_cap);
@@ -86,6 +87,8 @@ bool Scenario::from_json(const Json &j, Scenario &s) {
 	s.readlink_fail = j.getb("readlink_fail");
 	s.stdin_closed = j.getb("stdin_closed");
 	s.sigchld_ignored = j.getb("sigchld_ignored");
+	s.sigterm_inherited = (int)j.geti("sigterm_inherited", 0);
+	s.stdin_stays_open = j.getb("stdin_stays_open");
 	s.stray_exit_step = (int)j.geti("stray_exit_step", -1);
 	s.stray_status = (int)j.geti("stray_status");
 	s.pipe_cap = (int)j.geti("pipe_cap", 2);
@@ -227,6 +230,8 @@ static Scenario minimise(Scenario sc, const std::string &cls, const Outcome &fir
 		if (sc.readlink_fail) { Scenario t = sc; t.readlink_fail = false; attempt(t); }
 		if (sc.stdin_closed) { Scenario t = sc; t.stdin_closed = false; attempt(t); }
 		if (sc.sigchld_ignored) { Scenario t = sc; t.sigchld_ignored = false; attempt(t); }
+		if (sc.sigterm_inherited) { Scenario t = sc; t.sigterm_inherited = 0; attempt(t); }
+		if (sc.stdin_stays_open) { Scenario t = sc; t.stdin_stays_open = false; attempt(t); }
 		for (size_t i = 0; i < sc.plans.size();) { Scenario t = sc; t.plans.erase(t.plans.begin() + i); if (!attempt(t)) i++; }
 		for (size_t i = 0; i < sc.faults.size();) { Scenario t = sc; t.faults.erase(t.faults.begin() + i); if (!attempt(t)) i++; }
 		for (size_t i = 0; i < sc.stops.size();) { Scenario t = sc; t.stops.erase(t.stops.begin() + i); if (!attempt(t)) i++; }
